@@ -153,6 +153,19 @@ fn foreign_cvec<const IDX: usize>() {
     assert!(v[idx] == x);
     assert!(v[if idx == 0 { 1 } else { 0 }] == a);
     assert!(v[if idx == 2 { 1 } else { 2 }] == b);
+    {
+        // a clone made by the host is a host vector: it does not carry the plugin's functions, and growing
+        // or freeing it never reaches the plugin
+        let (r0, d0) = unsafe { (VEC_RESERVES, VEC_DROPS) };
+        let mut c = v.clone();
+        assert!(c.len() == 3 && c[idx] == x);
+        assert!(c.as_ptr() as usize != v.as_ptr() as usize);
+        c.push(1);
+        c.push(2);
+        assert!(c.len() == 5 && c[4] == 2);
+        drop(c);
+        unsafe { assert!(VEC_RESERVES == r0 && VEC_DROPS == d0, "the plugin is never asked to grow or free host memory") };
+    }
     let op: u8 = nd::any();
     nd::assume(op < 4);
     nd::cover!(op == 0, "push after growth");
